@@ -25,6 +25,7 @@ import (
 	"github.com/hyperledger/aries-framework-go/pkg/didcomm/transport"
 	"github.com/hyperledger/aries-framework-go/pkg/framework/aries"
 	kmsapi "github.com/hyperledger/aries-framework-go/spi/kms"
+	spi "github.com/hyperledger/aries-framework-go/spi/storage"
 )
 
 // outbound transport with a fault counter
@@ -50,9 +51,55 @@ func (t *c09xOut) Send(data []byte, des *service.Destination) (string, error) {
 	return (&c10Out{t.bus}).Send(data, des)
 }
 
+// protocol state store whose K-th write from now fails (a storage fault while the protocol persists a state)
+type c09xFlaky struct {
+	spi.Provider
+	mu     sync.Mutex
+	failIn int
+}
+
+func (p *c09xFlaky) hit() bool {
+	p.mu.Lock()
+	defer p.mu.Unlock()
+	if p.failIn > 0 {
+		p.failIn--
+		return p.failIn == 0
+	}
+	return false
+}
+
+func (p *c09xFlaky) OpenStore(name string) (spi.Store, error) {
+	st, err := p.Provider.OpenStore(name)
+	if err != nil {
+		return nil, err
+	}
+	return &c09xFlakyStore{Store: st, p: p}, nil
+}
+
+type c09xFlakyStore struct {
+	spi.Store
+	p *c09xFlaky
+}
+
+func (s *c09xFlakyStore) Put(k string, v []byte, tags ...spi.Tag) error {
+	if s.p.hit() {
+		return fmt.Errorf("injected storage fault")
+	}
+	return s.Store.Put(k, v, tags...)
+}
+
+func (s *c09xFlakyStore) Batch(ops []spi.Operation) error {
+	if s.p.hit() {
+		return fmt.Errorf("injected storage fault")
+	}
+	return s.Store.Batch(ops)
+}
+
 type c09xAgent struct {
-	c10   *c10Agent
-	out   *c09xOut
+	c10    *c10Agent
+	out    *c09xOut
+	pstore *c09xFlaky
+	parked []service.DIDCommAction
 	dx    *didexchange.Client
 	lc    *legacyconnection.Client
 	mu    sync.Mutex
@@ -62,9 +109,10 @@ type c09xAgent struct {
 }
 
 func c09xNewAgent(bus *c10Bus, name, proto string) (*c09xAgent, error) {
-	a := &c09xAgent{c10: &c10Agent{name: name, conns: map[string]string{}}, out: &c09xOut{bus: bus}}
+	a := &c09xAgent{c10: &c10Agent{name: name, conns: map[string]string{}}, out: &c09xOut{bus: bus},
+		pstore: &c09xFlaky{Provider: mem.NewProvider()}}
 	a.c10.in = &c10In{ep: "bus://" + name}
-	opts := []aries.Option{aries.WithStoreProvider(mem.NewProvider()), aries.WithProtocolStateStoreProvider(mem.NewProvider()),
+	opts := []aries.Option{aries.WithStoreProvider(mem.NewProvider()), aries.WithProtocolStateStoreProvider(a.pstore),
 		aries.WithInboundTransport(a.c10.in), aries.WithOutboundTransports(a.out), aries.WithKeyType(kmsapi.ED25519Type),
 		aries.WithKeyAgreementType(kmsapi.X25519ECDHKWType)}
 	fw, err := aries.New(opts...)
@@ -96,8 +144,11 @@ func c09xNewAgent(bus *c10Bus, name, proto string) (*c09xAgent, error) {
 		_ = a.lc.RegisterMsgEvent(events)
 	}
 	go func() {
-		for range actions {
-			// decisions are taken through the accept-by-connection-id API (the parked event is left alone)
+		for act := range actions {
+			// decisions are taken through the accept-by-connection-id API, or later by hand on the parked event (stop / cont)
+			a.mu.Lock()
+			a.parked = append(a.parked, act)
+			a.mu.Unlock()
 		}
 	}()
 	go func() {
@@ -113,9 +164,9 @@ func c09xNewAgent(bus *c10Bus, name, proto string) (*c09xAgent, error) {
 			if a.conn == "" {
 				a.conn = id
 			}
-			if id == a.conn {
-				a.post = append(a.post, e.StateID)
-			}
+			// there is ONE invitation, hence one thread, in a run: whatever is announced belongs to it (a second connection
+			// record for the same thread included)
+			a.post = append(a.post, e.StateID)
 			a.mu.Unlock()
 		}
 	}()
@@ -167,6 +218,8 @@ func c09xRun(input string) string {
 		return "ok"
 	}
 	var outs []string
+	var dxInv *didexchange.Invitation
+	var lcInv *legacyconnection.Invitation
 	for _, op := range strings.Split(parts[1], ";") {
 		f := strings.Split(op, " ")
 		o := "bad-op"
@@ -174,6 +227,7 @@ func c09xRun(input string) string {
 		case f[0] == "start" && proto == "dx":
 			inv, err := I.dx.CreateInvitation("i")
 			if err == nil {
+				dxInv = inv
 				_, err = E.dx.HandleInvitation(inv)
 			}
 			o = "ok"
@@ -183,12 +237,61 @@ func c09xRun(input string) string {
 		case f[0] == "start":
 			inv, err := I.lc.CreateInvitation("i")
 			if err == nil {
+				lcInv = inv
 				_, err = E.lc.HandleInvitation(inv)
 			}
 			o = "ok"
 			if err != nil {
 				o = "err"
 			}
+		case f[0] == "reinv":
+			// the same invitation message is delivered to the invitee once more
+			var err error
+			switch {
+			case dxInv != nil:
+				_, err = E.dx.HandleInvitation(dxInv)
+			case lcInv != nil:
+				_, err = E.lc.HandleInvitation(lcInv)
+			default:
+				err = fmt.Errorf("no invitation yet")
+			}
+			o = "ok"
+			if err != nil {
+				o = "err"
+			}
+		case (f[0] == "stop" || f[0] == "cont") && len(f) == 2:
+			// the application decides on the parked action event itself (the oldest one)
+			a := E
+			if f[1] == "i" {
+				a = I
+			}
+			a.mu.Lock()
+			var act *service.DIDCommAction
+			if len(a.parked) > 0 {
+				act = &a.parked[0]
+				a.parked = a.parked[1:]
+			}
+			a.mu.Unlock()
+			switch {
+			case act == nil:
+				o = "none"
+			case f[0] == "stop":
+				act.Stop(fmt.Errorf("the application declines"))
+				o = "ok"
+			default:
+				act.Continue(nil)
+				o = "ok"
+			}
+		case f[0] == "sfail" && len(f) == 3:
+			k, _ := strconv.Atoi(f[2])
+			a := E
+			if f[1] == "i" {
+				a = I
+			}
+			a.pstore.mu.Lock()
+			a.pstore.failIn = k
+			a.pstore.mu.Unlock()
+			o = "ok"
 		case (f[0] == "acc" || f[0] == "again") && len(f) == 2:
 			if f[1] == "i" {
 				o = accept(I, true)
@@ -268,6 +371,28 @@ func c09xGen(r *Rng, n int) []string {
 		if r.N(3) == 0 {
 			j := r.N(len(ops))
 			ops = append(ops[:j], append([]string{fmt.Sprintf("fail %s %d", r.Pick([]string{"e", "i"}), 1+r.N(2))}, ops[j:]...)...)
+		}
+		if r.N(3) == 0 { // the invitation is delivered once more, at any point of the thread's life
+			j := 1 + r.N(len(ops))
+			ops = append(ops[:j], append([]string{"reinv"}, ops[j:]...)...)
+		}
+		if r.N(5) == 0 {
+			// the application declines exactly while the state store fails, and the thread goes on afterwards
+			if r.Bool() {
+				ops = []string{"start", "sfail e 1", r.Pick([]string{"stop e", "stop e", "cont e"}), "acc e", "acc i"}
+			} else {
+				ops = []string{"start", "acc e", "sfail i 1", r.Pick([]string{"stop i", "stop i", "cont i"}), "acc i"}
+			}
+		}
+		if r.N(3) == 0 {
+			// decisions on the parked event itself (stop / continue), with the state store failing underneath
+			j := 1 + r.N(len(ops))
+			who := r.Pick([]string{"e", "i"})
+			extra := []string{r.Pick([]string{"stop ", "stop ", "cont "}) + who}
+			if r.Bool() {
+				extra = append([]string{fmt.Sprintf("sfail %s %d", who, 1+r.N(3))}, extra...)
+			}
+			ops = append(ops[:j], append(extra, ops[j:]...)...)
 		}
 		out = append(out, proto+"|"+strings.Join(ops, ";"))
 	}
